@@ -800,13 +800,14 @@ def snapshot_tables(decl, field_ids, out):
         src = []
         for x in walk(st):
             if x.get("kind") == "MemberExpr" and x.get("referencedMemberDecl") in field_ids and id(x) not in lhs_ids:
-                nm = "%s.%s" % (field_ids[x["referencedMemberDecl"]], x["name"])
+                nm = (field_ids[x["referencedMemberDecl"]], x["name"])
                 if nm not in src:
                     src.append(nm)
         reads.append((asg[0][0], src))
-    out.append("/-- snapshot(): per member assigned outside the switches, the row-struct members the statement reads -/\n"
-               "def snapshotReads : List (String × List String) := %s\n"
-               % llist(["(%s, %s)" % (lstr(m), llist([lstr(x) for x in s], per_line=0)) for m, s in reads]))
+    out.append("/-- snapshot(): per member assigned outside the switches, the (struct, member) pairs the statement reads -/\n"
+               "def snapshotReads : List (String × List (String × String)) := %s\n"
+               % llist(["(%s, %s)" % (lstr(m), llist(["(%s, %s)" % (lstr(a), lstr(b)) for a, b in s], per_line=0))
+                        for m, s in reads]))
     calls = [callee(n) for n in walk(body) if is_storage_call(n)]
     out.append("def snapshotCalls : List String := %s\n" % llist([lstr(c) for c in calls], per_line=0))
 
